@@ -729,6 +729,19 @@ def _run(ctx, res):
                     case=dict(sender=True, text_len=n, send_max=send_max, names=names, kind=kind), detail=r))
             elif r["reported"] != 0:
                 res.errors.append("sender probe: _tcp_send did not succeed on a healthy fake socket: %r" % (r,))
+    # the shortest messages: a PING between devices with short names (every message LENGTH, also the smallest)
+    for names in (None, (("a", "k1"), ("b", "k2")), (("x", "y"), ("z", "w")), (("dev0", "key0"), ("d", "k")), (("\u00e4", "k"), ("b", "\u00fc"))):
+        r = S.sender_probe(0, send_max=1460, names=names, kind="ping")
+        res.note_case(("sender-ping", repr(names)), True)
+        res.count("sender_side_pings")
+        if r["reported"] == 0 and not r["delivered"]:
+            res.failures.append(dict(
+                signature="reported-sent-but-not-delivered",
+                what="_tcp_send reported success for a PING of %s bytes (device names %r); the receiver never recognised it as a "
+                     "whole message / did not honour its RESET flag" % (r["message_bytes"], names),
+                case=dict(sender=True, text_len=0, send_max=1460, names=names, kind="ping"), detail=r))
+        elif r["reported"] != 0:
+            res.errors.append("sender probe (ping): _tcp_send did not succeed on a healthy fake socket: %r" % (r,))
 
     # a connection reset (not in the model: oracle only) must not stop the listener either
     aes = dict(aes_messages(True))
